@@ -147,7 +147,11 @@ def build(path, nobj, mode, onlybest, nextra, via, events, sidelog=None, collide
 def session(R, workdir, idx, nobj, mode, onlybest, nextra, via, nreg, collide=False, inf=False):
     path = os.path.join(workdir, f"log_{idx}.csv")
     events = []
-    tracker, cfg = build(path, nobj, mode, onlybest, nextra, via, events, collide=collide, inf=inf)
+    try:
+        tracker, cfg = build(path, nobj, mode, onlybest, nextra, via, events, collide=collide, inf=inf)
+    except Exception as e:
+        return [{"e": "sessionfail", "exc": type(e).__name__}], \
+            {"k": "csv", "header": [], "kinds": [], "onlybest": bool(onlybest), "nobj": nobj, "nextra": nextra, "via": via}
     rows, partial = read_disk(path)
     events.insert(0, {"e": "created", "disk": rows, "partial": partial})
     rs = NativeRandomSource(R.randint(0, 10 ** 6))
@@ -159,7 +163,11 @@ def session(R, workdir, idx, nobj, mode, onlybest, nextra, via, nreg, collide=Fa
         b = inds[i:i + k]
         if i > 0 and R.random() < 0.3:
             b.append(inds[R.randrange(i)])     # a re-presented individual is registered again
-        tracker.evaluate(b)
+        try:
+            tracker.evaluate(b)
+        except Exception as e:      # registering an individual with a well-formed recorder must not raise
+            events.append({"e": "sessionfail", "exc": type(e).__name__})
+            break
         i += k
     os.remove(path)
     return events, cfg
